@@ -524,6 +524,13 @@ func (f *Firewall) inConns(fp firewall.Packet, h *HostInfo, caPool *cert.CAPool,
 		return false
 	}
 
+	// The timer wheel only advances when a new flow is inserted, so an idle entry can sit in the map long after its
+	// timeout. Never honour (or refresh) an entry that has expired; the wheel removes it when it gets there.
+	if !c.Expires.After(time.Now()) {
+		conntrack.Unlock()
+		return false
+	}
+
 	if c.rulesVersion != f.rulesVersion {
 		// This conntrack entry was for an older rule set, validate
 		// it still passes with the current rule set
